@@ -460,6 +460,7 @@ type Contract struct {
 	Serves   []string
 	Returns  []string // result names
 	Requires []*Clause
+	Assumes  []*Clause // assumed at entry (established by the runtime that invokes the function), not an obligation of module callers
 	Ensures  []*Clause
 	LoopInv  []*Clause
 	Modifies []string
@@ -555,7 +556,7 @@ type Specs struct {
 	Errors     []string
 }
 
-var clauseKeywords = map[string]bool{"requires": true, "ensures": true, "modifies": true, "safety": true, "loop": true,
+var clauseKeywords = map[string]bool{"assumes": true, "requires": true, "ensures": true, "modifies": true, "safety": true, "loop": true,
 	"returns": true, "panics": true, "ghost": true, "call": true, "serves": true, "inline": true, "assert": true, "opt": true}
 
 // parseSpecText parses the //@ lines of one file.
@@ -771,6 +772,8 @@ func (sp *Specs) parseSpecText(pkg, file, text string) {
 				switch kind {
 				case "requires":
 					c.Requires = append(c.Requires, cl)
+				case "assumes":
+					c.Assumes = append(c.Assumes, cl)
 				case "ensures":
 					c.Ensures = append(c.Ensures, cl)
 				case "invariant":
@@ -785,6 +788,8 @@ func (sp *Specs) parseSpecText(pkg, file, text string) {
 		switch first {
 		case "requires", "ensures":
 			mk(first, "")
+		case "assumes":
+			mk("assumes", "")
 		case "assert":
 			mk("assert", "")
 		case "panics":
